@@ -26,6 +26,7 @@ def basis(n):
 
 def textbook(name, *args):
     i = 1j
+    args = tuple(float(a) if isinstance(a, (np.integer, np.floating)) else a for a in args)   # the angle as a plain float
     if name == "I": return np.eye(2, dtype=complex)
     if name == "H": return np.array([[1, 1], [1, -1]], dtype=complex) / SQ2
     if name == "X": return np.array([[0, 1], [1, 0]], dtype=complex)
